@@ -26,7 +26,7 @@ PROPS = {
         "kind": "c09,std",
         "module": "Props.C09",
         "namespace": "Jl.C09",
-        "extra_theorem_files": [("Proofs.CastInt", "Jl"), ("Proofs.LineInts", "Jl.LineInts")],
+        "extra_theorem_files": [("Proofs.CastInt", "Jl"), ("Proofs.LineInts", "Jl.LineInts"), ("Proofs.GettersExact", "Jl.GettersExact")],
         "rule": ("10 integer casters x sources: every int8/uint8 value (exhaustive), int16/uint16 within 260 of every power of "
                  "two plus a 1/40 sample (thorough: exhaustive), every value within 2 of every power of two and type bound "
                  "carried by every Go integer type that holds it, by decimal text and by json.Number; float64/float32 within "
@@ -180,7 +180,7 @@ PROPS = {
         "jl": True,
         "module": "Props.C07",
         "namespace": "Jl.C07",
-        "extra_theorem_files": [("Proofs.Scanner", "Jl.Scanner"), ("Proofs.Stream", "Jl.Stream")],
+        "extra_theorem_files": [("Proofs.Scanner", "Jl.Scanner"), ("Proofs.Stream", "Jl.Stream"), ("Proofs.StreamAccept", "Jl.StreamAccept")],
         "rule": ("streams of 0-7 lines drawn from valid objects, blank lines, invalid JSON, non-object values, lines rejected by the template "
                  "and trailing-content lines, with LF / CRLF / missing final newline, delivered by readers returning 1-byte, 3-, 7-byte, "
                  "mixed-with-empty-reads, 64-, 1000-byte and whole-buffer chunks, under the default and the tolerant processor; line "
@@ -211,7 +211,7 @@ PROPS = {
         "kind": "c17",
         "module": "Props.C17",
         "namespace": "Jl.C17",
-        "extra_theorem_files": [("Proofs.NoPanic", "Jl.NoPanic"), ("Proofs.MapTo", "Jl.MapTo")],
+        "extra_theorem_files": [("Proofs.NoPanic", "Jl.NoPanic"), ("Proofs.MapTo", "Jl.MapTo"), ("Proofs.GettersExact", "Jl.GettersExact")],
         "rule": ("probes under recover() on three rows (empty, parsed from JSON with nulls / nested rows / arrays / look-alike strings, built "
                  "through the API with every raw type incl. a struct and a typed cell): all 16 typed getters x 14 keys (present, absent, empty, "
                  "null, nested, unconvertible); every positional operation x indexes -1, 0, 1, 5, 100, MinInt64, MaxInt64; GetAtPath / "
@@ -278,7 +278,7 @@ PROPS = {
         "jl": True,
         "module": "Props.C14",
         "namespace": "Jl.C14",
-        "extra_theorem_files": [("Proofs.Time", "Jl.Time"), ("Proofs.Civil", "Jl.Time"), ("Proofs.LineTime", "Jl.LineTime")],
+        "extra_theorem_files": [("Proofs.Time", "Jl.Time"), ("Proofs.Civil", "Jl.Time"), ("Proofs.LineTime", "Jl.LineTime"), ("Proofs.LineTimeMore", "Jl.LineTimeMore")],
         "rule": ("under process zones UTC, +05:30, -03:00, Europe/Paris and America/New_York (time.Local switched in-process, tz database "
                  "embedded): ToTime(src), ToString of the result, ToTimestamp(src) and ToTimestamp(ToTime(src)) for date-time strings with "
                  "explicit offsets (hand-picked boundaries: years 0001 and 9999, offsets +-23:59, leap days, DST gaps and overlaps of both "
